@@ -24,6 +24,15 @@ import (
 	"golang.org/x/tools/go/ssa"
 )
 
+var branchStats map[string]int
+var branchStatsMu sync.Mutex
+
+func init() {
+	if os.Getenv("SYMGO_BRANCHSTATS") != "" {
+		branchStats = make(map[string]int)
+	}
+}
+
 type continuation int
 
 const (
@@ -39,6 +48,7 @@ type Program struct {
 	sizes              types.Sizes
 	extCache           sync.Map // *ssa.Function -> externalFn (or nil)
 	funcByName         sync.Map // string -> *ssa.Function
+	fnInfos            sync.Map // *ssa.Function -> *fnInfo
 	pkgByPath          map[string]*ssa.Package
 }
 
@@ -64,6 +74,11 @@ type interpreter struct {
 	ex            *Explorer
 	hashInputs    []hashRec
 	scopes        []int
+	scopePC       [][]*Term
+	pcSet         map[*Term]bool
+	model         map[string]uint64
+	memo          map[*Term]uint64
+	impliedCache  map[*Term]int
 }
 
 type deferred struct {
@@ -78,7 +93,8 @@ type frame struct {
 	caller           *frame
 	fn               *ssa.Function
 	block, prevBlock *ssa.BasicBlock
-	env              map[ssa.Value]value // dynamic values of SSA variables
+	env              []value // dynamic values of SSA variables, indexed by info.index
+	info             *fnInfo
 	locals           []value
 	defers           *deferred
 	result           value
@@ -101,6 +117,47 @@ func (fr *frame) targetStack() string {
 		fmt.Fprintf(&sb, "    %s  %s\n", f.fn, pos)
 	}
 	return sb.String()
+}
+
+// fnInfo numbers the SSA values of a function (shared, read-only).
+type fnInfo struct {
+	index map[ssa.Value]int
+	n     int
+}
+
+func (P *Program) fnInfoOf(fn *ssa.Function) *fnInfo {
+	if v, ok := P.fnInfos.Load(fn); ok {
+		return v.(*fnInfo)
+	}
+	info := &fnInfo{index: make(map[ssa.Value]int)}
+	add := func(v ssa.Value) {
+		if _, ok := info.index[v]; !ok {
+			info.index[v] = info.n
+			info.n++
+		}
+	}
+	for _, p := range fn.Params {
+		add(p)
+	}
+	for _, fv := range fn.FreeVars {
+		add(fv)
+	}
+	for _, l := range fn.Locals {
+		add(l)
+	}
+	for _, b := range fn.Blocks {
+		for _, instr := range b.Instrs {
+			if v, ok := instr.(ssa.Value); ok {
+				add(v)
+			}
+		}
+	}
+	P.fnInfos.Store(fn, info)
+	return info
+}
+
+func (fr *frame) set(v ssa.Value, x value) {
+	fr.env[fr.info.index[v]] = x
 }
 
 // engine-level panics that must cross all target frames untouched
@@ -133,8 +190,10 @@ func (fr *frame) get(key ssa.Value) value {
 	case *ssa.Global:
 		return fr.i.globalAddr(key)
 	}
-	if r, ok := fr.env[key]; ok {
-		return r
+	if k, ok := fr.info.index[key]; ok {
+		if r := fr.env[k]; r != nil {
+			return r
+		}
 	}
 	panic(engineBug(fmt.Sprintf("get: no value for %T: %v", key, key.Name())))
 }
@@ -261,35 +320,35 @@ func visitInstr(fr *frame, instr ssa.Instruction) continuation {
 		// no-op
 
 	case *ssa.UnOp:
-		fr.env[instr] = i.unop(instr, fr.get(instr.X))
+		fr.set(instr, i.unop(instr, fr.get(instr.X)))
 
 	case *ssa.BinOp:
-		fr.env[instr] = i.binop(instr.Op, instr.X.Type(), instr.Y.Type(), fr.get(instr.X), fr.get(instr.Y))
+		fr.set(instr, i.binop(instr.Op, instr.X.Type(), instr.Y.Type(), fr.get(instr.X), fr.get(instr.Y)))
 
 	case *ssa.Call:
 		fn, args := prepareCall(fr, &instr.Call)
-		fr.env[instr] = call(fr.i, fr, instr.Pos(), fn, args)
+		fr.set(instr, call(fr.i, fr, instr.Pos(), fn, args))
 
 	case *ssa.ChangeInterface:
-		fr.env[instr] = fr.get(instr.X)
+		fr.set(instr, fr.get(instr.X))
 
 	case *ssa.ChangeType:
-		fr.env[instr] = fr.get(instr.X) // (can't fail)
+		fr.set(instr, fr.get(instr.X)) // (can't fail)
 
 	case *ssa.Convert:
-		fr.env[instr] = i.conv(instr.Type(), instr.X.Type(), fr.get(instr.X))
+		fr.set(instr, i.conv(instr.Type(), instr.X.Type(), fr.get(instr.X)))
 
 	case *ssa.SliceToArrayPointer:
-		fr.env[instr] = sliceToArrayPointer(instr.Type(), instr.X.Type(), fr.get(instr.X))
+		fr.set(instr, sliceToArrayPointer(instr.Type(), instr.X.Type(), fr.get(instr.X)))
 
 	case *ssa.MakeInterface:
-		fr.env[instr] = iface{t: instr.X.Type(), v: fr.get(instr.X)}
+		fr.set(instr, iface{t: instr.X.Type(), v: fr.get(instr.X)})
 
 	case *ssa.Extract:
-		fr.env[instr] = fr.get(instr.Tuple).(tuple)[instr.Index]
+		fr.set(instr, fr.get(instr.Tuple).(tuple)[instr.Index])
 
 	case *ssa.Slice:
-		fr.env[instr] = i.slice(fr.get(instr.X), fr.get(instr.Low), fr.get(instr.High), fr.get(instr.Max))
+		fr.set(instr, i.slice(fr.get(instr.X), fr.get(instr.Low), fr.get(instr.High), fr.get(instr.Max)))
 
 	case *ssa.Return:
 		switch len(instr.Results) {
@@ -320,7 +379,20 @@ func visitInstr(fr *frame, instr ssa.Instruction) continuation {
 
 	case *ssa.If:
 		succ := 1
-		if i.truth(fr.get(instr.Cond)) {
+		cv := fr.get(instr.Cond)
+		if branchStats != nil {
+			if _, ok := cv.(*Term); ok {
+				q0 := i.run.queries
+				r := i.truth(cv)
+				if i.run.queries > q0 {
+					branchStatsMu.Lock()
+					branchStats[fr.fn.String()+" "+fr.fn.Prog.Fset.Position(instr.Cond.Pos()).String()] += i.run.queries - q0
+					branchStatsMu.Unlock()
+				}
+				cv = r
+			}
+		}
+		if i.truth(cv) {
 			succ = 0
 		}
 		fr.prevBlock, fr.block = fr.block, fr.block.Succs[succ]
@@ -348,17 +420,17 @@ func visitInstr(fr *frame, instr ssa.Instruction) continuation {
 		i.spawn(fn, args, instr.Pos())
 
 	case *ssa.MakeChan:
-		fr.env[instr] = i.makeChan(int(i.concInt(fr.get(instr.Size), "chan-size")))
+		fr.set(instr, i.makeChan(int(i.concInt(fr.get(instr.Size), "chan-size"))))
 
 	case *ssa.Alloc:
 		var addr *value
 		if instr.Heap {
 			// new
 			addr = new(value)
-			fr.env[instr] = addr
+			fr.set(instr, addr)
 		} else {
 			// local
-			addr = fr.env[instr].(*value)
+			addr = fr.env[fr.info.index[instr]].(*value)
 		}
 		*addr = zero(mustDeref(instr.Type()))
 
@@ -381,32 +453,32 @@ func visitInstr(fr *frame, instr ssa.Instruction) continuation {
 				slice[k] = z
 			}
 		}
-		fr.env[instr] = slice[:l]
+		fr.set(instr, slice[:l])
 
 	case *ssa.MakeMap:
-		fr.env[instr] = i.makeMap(instr.Type().Underlying().(*types.Map).Key())
+		fr.set(instr, i.makeMap(instr.Type().Underlying().(*types.Map).Key()))
 
 	case *ssa.Range:
-		fr.env[instr] = i.rangeIter(fr.get(instr.X), instr.X.Type())
+		fr.set(instr, i.rangeIter(fr.get(instr.X), instr.X.Type()))
 
 	case *ssa.Next:
-		fr.env[instr] = fr.get(instr.Iter).(iter).next()
+		fr.set(instr, fr.get(instr.Iter).(iter).next())
 
 	case *ssa.FieldAddr:
-		fr.env[instr] = &(*fr.get(instr.X).(*value)).(structure)[instr.Field]
+		fr.set(instr, &(*fr.get(instr.X).(*value)).(structure)[instr.Field])
 
 	case *ssa.Field:
-		fr.env[instr] = fr.get(instr.X).(structure)[instr.Field]
+		fr.set(instr, fr.get(instr.X).(structure)[instr.Field])
 
 	case *ssa.IndexAddr:
 		x := fr.get(instr.X)
 		idx := fr.get(instr.Index)
 		switch x := x.(type) {
 		case []value:
-			fr.env[instr] = &x[i.indexIn(idx, instr.Index.Type(), len(x))]
+			fr.set(instr, &x[i.indexIn(idx, instr.Index.Type(), len(x))])
 		case *value: // *array
 			a := (*x).(array)
-			fr.env[instr] = &a[i.indexIn(idx, instr.Index.Type(), len(a))]
+			fr.set(instr, &a[i.indexIn(idx, instr.Index.Type(), len(a))])
 		case *opaqueBytes:
 			i.unsupported("element of opaque bytes")
 		default:
@@ -419,38 +491,38 @@ func visitInstr(fr *frame, instr ssa.Instruction) continuation {
 
 		switch x := x.(type) {
 		case array:
-			fr.env[instr] = x[i.indexIn(idx, instr.Index.Type(), len(x))]
+			fr.set(instr, x[i.indexIn(idx, instr.Index.Type(), len(x))])
 		case string:
-			fr.env[instr] = x[i.indexIn(idx, instr.Index.Type(), len(x))]
+			fr.set(instr, x[i.indexIn(idx, instr.Index.Type(), len(x))])
 		default:
 			panic(engineBug(fmt.Sprintf("unexpected x type in Index: %T", x)))
 		}
 
 	case *ssa.Lookup:
 		if s, ok := fr.get(instr.X).(string); ok {
-			fr.env[instr] = s[i.indexIn(fr.get(instr.Index), instr.Index.Type(), len(s))]
+			fr.set(instr, s[i.indexIn(fr.get(instr.Index), instr.Index.Type(), len(s))])
 		} else {
-			fr.env[instr] = lookup(instr, fr.get(instr.X), fr.get(instr.Index))
+			fr.set(instr, lookup(instr, fr.get(instr.X), fr.get(instr.Index)))
 		}
 
 	case *ssa.MapUpdate:
 		fr.get(instr.Map).(*omap).insert(fr.get(instr.Key), fr.get(instr.Value))
 
 	case *ssa.TypeAssert:
-		fr.env[instr] = typeAssert(fr.i, instr, fr.get(instr.X).(iface))
+		fr.set(instr, typeAssert(fr.i, instr, fr.get(instr.X).(iface)))
 
 	case *ssa.MakeClosure:
 		var bindings []value
 		for _, binding := range instr.Bindings {
 			bindings = append(bindings, fr.get(binding))
 		}
-		fr.env[instr] = &closure{instr.Fn.(*ssa.Function), bindings}
+		fr.set(instr, &closure{instr.Fn.(*ssa.Function), bindings})
 
 	case *ssa.Phi:
 		panic(engineBug("unreachable phi")) // phis are processed at block entry
 
 	case *ssa.Select:
-		fr.env[instr] = i.doSelect(fr, instr)
+		fr.set(instr, i.doSelect(fr, instr))
 
 	default:
 		panic(engineBug(fmt.Sprintf("unexpected instruction: %T", instr)))
@@ -599,18 +671,19 @@ func callSSA(i *interpreter, caller *frame, callpos token.Pos, fn *ssa.Function,
 		panic(engineBug("generic function body not instantiated: " + fn.String()))
 	}
 
-	fr.env = make(map[ssa.Value]value, 16)
+	fr.info = i.P.fnInfoOf(fn)
+	fr.env = make([]value, fr.info.n)
 	fr.block = fn.Blocks[0]
 	fr.locals = make([]value, len(fn.Locals))
 	for k, l := range fn.Locals {
 		fr.locals[k] = zero(mustDeref(l.Type()))
-		fr.env[l] = &fr.locals[k]
+		fr.env[fr.info.index[l]] = &fr.locals[k]
 	}
 	for k, p := range fn.Params {
-		fr.env[p] = args[k]
+		fr.env[fr.info.index[p]] = args[k]
 	}
 	for k, fv := range fn.FreeVars {
-		fr.env[fv] = env[k]
+		fr.env[fr.info.index[fv]] = env[k]
 	}
 	for fr.block != nil {
 		runFrame(fr)
@@ -707,7 +780,7 @@ func executePhis(fr *frame) []ssa.Instruction {
 			fr.phitemps = append(fr.phitemps, fr.get(phi.Edges[predIndex]))
 		}
 		for i, phi := range phis {
-			fr.env[phi.(*ssa.Phi)] = fr.phitemps[i]
+			fr.env[fr.info.index[phi.(*ssa.Phi)]] = fr.phitemps[i]
 		}
 	}
 	return nonPhis
